@@ -28,6 +28,16 @@ pub enum Mode {
 }
 static MODE: AtomicU8 = AtomicU8::new(0);
 pub static EVENTS: AtomicU64 = AtomicU64::new(0);
+/// Marker that starts the message of the panic raised instead of a certain self-deadlock.
+pub const SELF_DEADLOCK: &str = "VERIF-SELF-DEADLOCK";
+static SELF_DEADLOCK_PANICS: std::sync::atomic::AtomicBool = std::sync::atomic::AtomicBool::new(false);
+/// Sequential monitors: a *blocking* acquisition of a lock the same thread already holds in a
+/// conflicting mode (parking_lot locks are not re-entrant) would block forever.  With this on,
+/// the hook panics with `SELF_DEADLOCK` before the real acquisition instead, so the monitor can
+/// report the observation and go on.
+pub fn self_deadlock_panics(on: bool) {
+    SELF_DEADLOCK_PANICS.store(on, Ordering::SeqCst);
+}
 
 pub fn mode() -> Mode {
     match MODE.load(Ordering::Relaxed) {
@@ -335,6 +345,13 @@ fn hook(kind: u8, lock: usize, site: &'static Location<'static>) {
     match kind {
         0 | 3 => {
             let excl = kind == 0;
+            if SELF_DEADLOCK_PANICS.load(Ordering::Relaxed) {
+                let conflict = HELD.with(|h| h.borrow().iter().find(|x| x.lock == lock && (x.excl || excl)).map(|x| x.site));
+                if let Some(hs) = conflict {
+                    IN_HOOK.with(|c| c.set(false));
+                    panic!("{}: blocking {} acquisition at {} of a lock this thread already holds (acquired at {})", SELF_DEADLOCK, if excl { "exclusive" } else { "shared" }, fmt_site(site), fmt_site(hs));
+                }
+            }
             match m {
                 Mode::Serial if me != usize::MAX => yield_point(me, Some(Pending { lock, excl, site }), internal_site(site)),
                 Mode::Jitter => {
